@@ -21,7 +21,7 @@ fi
 cd /verif
 for c in $CHECKS; do
   VERIF_REPO=$WT ./check $c > /tmp/seed_check_$c.log 2>&1; rc=$?
-  echo "check $c exit=$rc :: $(grep -E '^VIOLATION|^KNOWN|^MACHINERY' /tmp/seed_check_$c.log | head -3 | tr '\n' ' ') $(tail -1 /tmp/seed_check_$c.log | cut -c1-120)"
+  echo "check $c exit=$rc :: $(grep -c '^VIOLATION' /tmp/seed_check_$c.log) violation(s), $(grep -c 'no-failing-input-found' /tmp/seed_check_$c.log) without input, $(grep -c '^KNOWN-FINDING' /tmp/seed_check_$c.log) known :: $(grep -E '^VIOLATION|^MACHINERY' /tmp/seed_check_$c.log | head -2 | tr '\n' ' ') $(tail -1 /tmp/seed_check_$c.log | cut -c1-120)"
 done
 # files generated from the mutated tree must not stay behind
 (cd /verif && /venv/bin/python -W ignore::SyntaxWarning -m harness.regen >/dev/null 2>&1)
